@@ -84,7 +84,7 @@ def out_term(out):
         f"({n}, [" + "; ".join(f"({p}, {al}, {q})" for p, al, q in vs) + "])" for n, vs in out) + "], 0)"
 
 
-DEFAULT_OPTS = dict(overhang=10, mapq=20, use_supp=False, dup=False)
+DEFAULT_OPTS = dict(overhang=10, mapq=20, use_supp=False, dup=False, gt=None)
 NAME_SCHEMES = {          # index -> name; the second and third share prefixes / sort against their index
     "plain": lambda prefix, k: f"{prefix}{k}",
     "prefix": lambda prefix, k: prefix + "1" + "0" * k,
@@ -107,7 +107,9 @@ def opts_of(case):
 def opts_term(case):
     o = opts_of(case)
     b = lambda x: "true" if x else "false"
-    return f"({o['overhang']}, {o['mapq']}, {b(o['use_supp'])}, {b(o['dup'])})"
+    gt = o.get("gt")
+    gtt = "None" if gt is None else "(Some [" + "; ".join("[" + "; ".join(str(x) for x in g) + "]" for g in gt) + "])"
+    return f"({o['overhang']}, {o['mapq']}, {b(o['use_supp'])}, {b(o['dup'])}, {gtt})"
 
 
 def rg_term(case):
@@ -205,7 +207,7 @@ def run_impl(wd, case, refmode, perturb=None):
     import pyfaidx
     import logging
     from whatshap.variants import ReadSetReader
-    from whatshap.core import NumericSampleIds
+    from whatshap.core import NumericSampleIds, Genotype
     from whatshap.vcf import BiallelicVcfVariant
     from whatshap.bam import SampleNotFoundError
     logging.getLogger("whatshap.bam").setLevel(logging.ERROR)      # "read group without SM" warnings
@@ -233,7 +235,9 @@ def run_impl(wd, case, refmode, perturb=None):
                            mapq_threshold=o["mapq"], overhang=o["overhang"], duplicates=o["dup"],
                            use_supplementary=o["use_supp"],
                            supplementary_distance_threshold=case.get("threshold", 100000)) as rsr:
-            rs = rsr.read(CHROM, variants, None if sample is None else sm_name(case, sample), reference)
+            gt = o.get("gt")
+            rs = rsr.read(CHROM, variants, None if sample is None else sm_name(case, sample), reference,
+                          restricted_genotypes=None if gt is None else [Genotype(list(g)) for g in gt])
             out = sorted((key.get((r.source_id, int(r.name[1:])), 9000 + int(r.name[1:])),
                           [(v.position, v.allele, v.quality) for v in r]) for r in rs)
     except AssertionError:
@@ -321,6 +325,12 @@ def gen_case(rng, small=False):
                 used_pos.add(p)
                 listed_extra.append(G.make_variant(rng, ref, p, rng.choice(["snv", "snv", "mnp"])))
     listed_extra = [v for v in listed_extra if v is not None]
+    # symbolic-ALT records anywhere in the list
+    for _ in range(rng.choice([0, 0, 1, 1, 2])):
+        p = rng.randint(0, L - 2)
+        if p not in used_pos:
+            used_pos.add(p)
+            listed_extra.append((p, ref[p], rng.choice(["<DEL>", "<DUP>", "<INS>", "<INV>"])))
     allv = [(v, True) for v, l in zip(events, ev_tags) if l] + [(v, False) for v in listed_extra]
     allv.sort(key=lambda x: x[0][0])
     listed = [v for v, _ in allv]
@@ -328,6 +338,18 @@ def gen_case(rng, small=False):
     idx_of = {v: i for i, (v, c) in enumerate(allv) if c}
     ev = [(v[0], v[1], v[2], idx_of.get(v) if l else None) for v, l in zip(events, ev_tags)]
     cols = G.build_hap(ref, ev)
+    # restricted_genotypes as haplotagphase passes them: nothing / all heterozygous / the genotypes of a sample that has
+    # this haplotype (homozygous, heterozygous, triploid), some of them missing
+    gmode = rng.choice(["none", "none", "none", "het", "true", "true", "true+missing"])
+    if gmode == "het":
+        opts["gt"] = [[0, 1] for _ in listed]
+    elif gmode != "none":
+        opts["gt"] = []
+        for i in range(len(listed)):
+            c = 1 if i in carried else 0
+            g = sorted([c] + [rng.choice([0, 1, c, c]) for _ in range(rng.choice([1, 1, 1, 2]))])
+            opts["gt"].append([] if gmode == "true+missing" and rng.random() < 0.3 else g)
+    opts["gmode"] = gmode
     # alignments
     alns = []
     nid = 0
@@ -572,14 +594,17 @@ def finish_case(ref, listed, carried, cols, alns, threshold=100000, header=((0, 
             if G.kind_of(v) != "cpx":                       # replacements are outside the reference-free clause
                 res["truth_all"].setdefault(n, {})[v[0]] = allele
             same = [a for a in touching if strand_ok(a)]
+            gt = o.get("gt")
+            findable = gt is None or len(gt[idx]) > 0           # a missing genotype leaves no allele to report
             if wins == {"clean"}:
                 res["truth_clean"].setdefault(n, {})[v[0]] = allele
-                res["must_pair"].setdefault(n, set()).add(v[0])
-                if same:
+                if findable:
+                    res["must_pair"].setdefault(n, set()).add(v[0])
+                if same and findable:
                     res["must"].setdefault(n, set()).add(v[0])
             elif wins <= {"clean", "skip"}:
                 res["truth_skip"].setdefault(n, {})[v[0]] = allele
-                if same:
+                if same and findable:
                     res["must_skip"].setdefault(n, set()).add(v[0])
     case = dict(ref=ref, listed=listed, carried=sorted(carried), alns=alns, ncov=ncov, threshold=threshold,
                 header=[tuple(h) for h in header], sample=sample, malformed=malformed, **extra)
@@ -773,6 +798,15 @@ def tally_dimensions(ctx, case):
     t(f"opt.overhang.{o['overhang']}")
     t(f"opt.use_supplementary.{o['use_supp']}")
     t(f"opt.duplicates.{o['dup']}")
+    t(f"restricted_genotypes.{o.get('gmode', 'none')}")
+    kinds = [G.kind_of(v) for v in case["listed"]]
+    if "sym" in kinds:
+        t("symbolic_alt_records", kinds.count("sym"))
+        first = kinds.index("sym")
+        if any(k != "sym" for k in kinds[first + 1:]):
+            t("symbolic_alt_record_before_other_variants" + (".with_restriction" if o.get("gt") is not None else ""))
+    for g in (o.get("gt") or []):
+        t("genotype." + ("missing" if not g else "hom" if len(set(g)) == 1 else "het") + (".triploid" if len(g) == 3 else ""))
     t(f"names.{case.get('names', 'plain')}")
     t(f"bam_files.{case.get('nfiles', 1)}")
     thr = case.get("threshold", 100000)
